@@ -114,37 +114,7 @@ def r17b(chk, rid='R17.b'):
     chk.rule(rid, "canonicalisation agreement between parsing and editing a media list: _setMediaText collapses to 'all' and drops repeated media types; appendMedium rejects additions to 'all', moves a type already present to the end (delete, then append) and clears the list when 'all' is appended; deleteMedium rejects an absent type; the serializer writes 'all' for the empty list")
     m = chk.repo.mod(ML)
     _eval_set_media_text(chk, rid, m)
-    ap = m.get('MediaList.appendMedium')
-    src = ast.unparse(ap)
-    chk.ob(rid, ML, 'MediaList.appendMedium', "appending to a list that contains 'all' is rejected with InvalidModificationErr", "if 'all' in mts:" in src and 'InvalidModificationErr' in src, '', shape=True)
-    # move-to-end: delete then append in the same branch
-    mv = [n for n in ast.walk(ap) if isinstance(n, ast.If) and 'newmt in mts' in text(n.test)]
-    ok = False
-    for n in mv:
-        body = [text(s) for s in n.body]
-        if any('self.deleteMedium(newmt)' in b for b in body) and any("self._seq.append(newMedium, 'MediaQuery')" in b for b in body):
-            ok = body.index([b for b in body if 'deleteMedium' in b][0]) < body.index([b for b in body if '_seq.append' in b][0])
-    chk.ob(rid, ML, 'MediaList.appendMedium', 'a media type already present is deleted and appended again (moves to the end)', ok, 'duplicates or lost entries', shape=True)
-    chk.ob(rid, ML, 'MediaList.appendMedium', "appending 'all' clears the list first", "if 'all' == newmt:" in src and 'self._clearSeq()' in src, '', shape=True)
-    # a query with features has no simple media type (mediaType is None -> ''): it must never
-    # be used as the key of a deletion
-    mm = chk.repo.mod(ML)
-    for c in ast.walk(ap):
-        if isinstance(c, ast.Call) and call_name(c) == 'self.deleteMedium' and c.args and isinstance(c.args[0], ast.Name):
-            var = c.args[0].id
-            guarded = False
-            child, p = mm.enclosing_stmt(c), mm.parents.get(mm.enclosing_stmt(c))
-            while p is not None and p is not ap:
-                if isinstance(p, ast.If) and child in p.body:
-                    conj = p.test.values if isinstance(p.test, ast.BoolOp) and isinstance(p.test.op, ast.And) else [p.test]
-                    if any(isinstance(x, ast.Name) and x.id == var for x in conj):
-                        guarded = True
-                child, p = p, mm.parents.get(p)
-            chk.ob(rid, ML, 'MediaList.appendMedium', f'`{text(c)}` only for a non-empty media type', guarded,
-                   'a media query with features has an empty media type: appending one would delete another feature query that also has none')
-    dm = ast.unparse(m.get('MediaList.deleteMedium'))
-    chk.ob(rid, ML, 'MediaList.deleteMedium', 'an absent media type is rejected with NotFoundErr', 'NotFoundErr' in dm and 'else:' in dm, '', shape=True)
-    chk.ob(rid, ML, 'MediaList.deleteMedium', 'types are compared in normalised form', 'normalize(mq.value.mediaType) == oldMedium' in dm and 'oldMedium = normalize(oldMedium)' in dm, '', shape=True)
+    _eval_edit_media(chk, rid, m)
     _eval_medialist_writer(chk, rid)
 
 
@@ -284,3 +254,80 @@ def _eval_set_media_text(chk, rid, m):
                 first = first or f'queries {list(combo)}: {got}, prescribed {want}'
     chk.extra['medialist_cases_evaluated'] = n
     chk.ob(rid, ML, 'MediaList._setMediaText', f"all {n} model lists: 'all' replaces everything but the comments before it, a repeated media type is dropped, queries without a simple type are kept, one malformed query or no query rejects the list", bad == 0, f'{bad} cases differ, e.g. {first}')
+
+
+
+def _eval_edit_media(chk, rid, m):
+    """MediaList.appendMedium / deleteMedium evaluated on their syntax trees; iteration, deletion and
+    the index mapping are the class's own __iter__/__delitem__/__seqindex, evaluated as well."""
+    from sa.absint import Evaluator, Raised, Record
+
+    class MQ(Record):
+        pass
+
+    class SeqM(list):
+        _readonly = True
+
+        def append(self, val, typ=None, *a, **k):  # Seq.append(val, typ)
+            list.append(self, Record(value=val, type=typ))
+
+    def mk(kinds):
+        sq = SeqM()
+        for i, k in enumerate(kinds):
+            if k == 'c':
+                list.append(sq, Record(value=Record(cssText='/*c*/'), type='COMMENT', tag=f'c{i}'))
+            else:
+                list.append(sq, Record(value=MQ(mediaType=k, wellformed=True, tag=f'{k}{i}'), type='MediaQuery', tag=f'{k}{i}'))
+        return sq
+
+    def tags(sq):
+        return [getattr(it, 'tag', None) or getattr(it.value, 'tag', '?') for it in sq]
+
+    lists = [[], ['tv'], ['c', 'tv', 'c', 'print'], ['TV', 'print', 'c'], ['all'], ['c', 'all'], [None, 'tv', None], ['tv', 'tv']]
+    news = [('tv', True), ('TV', True), ('print', True), ('all', True), ('ALL', True), (None, True), ('handheld', True), ('tv', False)]
+    n = 0
+    bad = []
+    for kinds in lists:
+        for newtype, wf in news:
+            logged = []
+            sq = mk(kinds)
+            me = Record(_seq=sq, _checkReadonly=lambda: None, _log=Record(info=lambda *a, **k: logged.append(('info', k.get('error'))), error=lambda *a, **k: logged.append(('error', k.get('error')))))
+            me._clearSeq = lambda sq=sq: sq.clear()
+            new = MQ(mediaType=newtype, wellformed=wf, tag='NEW')
+            intr = {'normalize': lambda x: x.lower() if x else x, 'MediaQuery': MQ, 'xml': Record(dom=Record(InvalidModificationErr='InvalidModificationErr', NotFoundErr='NotFoundErr')),
+                    'self._log.info': me._log.info, 'self._log.error': me._log.error}
+            res = Evaluator(m.get('MediaList.appendMedium'), intrinsics=intr, model_types=(SeqM,), module=m, cls='MediaList').run(self=me, newMedium=new)
+            n += 1
+            before = tags(mk(kinds))
+            types = [(k or '').lower() for k in kinds if k != 'c']
+            nt = (newtype or '').lower()
+            if not wf:
+                want = before
+            elif 'all' in types:
+                want = before
+            elif nt and nt in types:
+                i = [j for j, k in enumerate(kinds) if k != 'c' and (k or '').lower() == nt][0]
+                want = before[:i] + before[i + 1:] + ['NEW']
+            elif nt == 'all':
+                want = ['NEW']
+            else:
+                want = before + ['NEW']
+            got = tags(sq) if not isinstance(res, Raised) else repr(res)
+            if got != want or sq._readonly is not True:
+                bad.append(f'appendMedium({newtype!r}) to {kinds}: {got}, prescribed {want}' + ('' if sq._readonly is True else '; the item list is left writable'))
+    for kinds in lists:
+        for old in ('tv', 'TV', 'print', 'all', 'absent'):
+            logged = []
+            sq = mk(kinds)
+            me = Record(_seq=sq, _checkReadonly=lambda: None, _log=Record(error=lambda *a, **k: logged.append(k.get('error'))))
+            intr = {'normalize': lambda x: x.lower() if x else x, 'xml': Record(dom=Record(NotFoundErr='NotFoundErr')), 'self._log.error': me._log.error}
+            res = Evaluator(m.get('MediaList.deleteMedium'), intrinsics=intr, model_types=(SeqM,), module=m, cls='MediaList').run(self=me, oldMedium=old)
+            n += 1
+            before = tags(mk(kinds))
+            hits = [j for j, k in enumerate(kinds) if k != 'c' and (k or '').lower() == old.lower()]
+            want = (before[:hits[0]] + before[hits[0] + 1:], []) if hits else (before, ['NotFoundErr'])
+            got = (tags(sq), logged) if not isinstance(res, Raised) else repr(res)
+            if got != want:
+                bad.append(f'deleteMedium({old!r}) from {kinds}: {got}, prescribed {want}')
+    chk.extra['media_edit_cases_evaluated'] = n
+    chk.ob(rid, ML, 'MediaList.appendMedium', f"all {n} edit cases: nothing is added to a list that holds 'all'; a type already present moves to the end; appending 'all' clears the list; queries without a simple type never displace another; deleteMedium removes the first query of the (normalised) type and reports NotFoundErr otherwise (by evaluation, through the class's own __iter__/__delitem__)", not bad, f'{len(bad)} cases differ, e.g. ' + '; '.join(bad[:2]))
